@@ -329,9 +329,12 @@ std::vector<uint8_t> shrink(std::vector<uint8_t> cur, const std::string& want, l
     ++n;
     return classify_forked(c) == want;
   };
-  // drop trailing zeros (they decode identically)
-  auto trim = [](std::vector<uint8_t>& v) {
-    while (!v.empty() && v.back() == 0) v.pop_back();
+  // dropping trailing zeros usually decodes identically (reading past the end yields 0) - but not for harnesses that
+  // loop "while (!t.exhausted())", so it is a candidate like any other and kept only if the failure is the same
+  auto trim = [&](std::vector<uint8_t>& v) {
+    std::vector<uint8_t> c = v;
+    while (!c.empty() && c.back() == 0) c.pop_back();
+    if (c.size() != v.size() && fails(c)) v = c;
   };
   trim(cur);
   bool progress = true;
@@ -342,7 +345,6 @@ std::vector<uint8_t> shrink(std::vector<uint8_t> cur, const std::string& want, l
       std::vector<uint8_t> c(cur.begin(), cur.begin() + long(keep));
       if (fails(c)) {
         cur = c;
-        trim(cur);
         progress = true;
         keep = cur.size() / 2;
       } else {
